@@ -525,8 +525,10 @@ func (db *DB) parseDataFiles(dataFileIds []int) (unconfirmedRecords []*Record, c
 					break
 				}
 
+				// Only key/value records can be indexed by position alone: list, set and
+				// sorted set records are replayed from their payload in every index mode.
 				e = nil
-				if db.opt.EntryIdxMode == HintKeyValAndRAMIdxMode {
+				if db.opt.EntryIdxMode == HintKeyValAndRAMIdxMode || entry.Meta.ds != DataStructureBPTree {
 					e = &Entry{
 						Key:   entry.Key,
 						Value: entry.Value,
